@@ -782,3 +782,154 @@ def exactname(repo):
     res.samples = [" ".join(text.split())[:120]]
     res.analysed = [TEMPLATES]
     return res
+
+
+# ---------------------------------------------------------------------------------------------------------
+# R-OKCOVER: Ok() examines every field
+def _mentions(node, name):
+    return any(isinstance(n, ast.Name) and n.id == name for n in ast.walk(node))
+
+
+def _placement(st, var):
+    """A statement that records `var` in a container: c.append(..var..) / c.add / c[k] = ..var.."""
+    if isinstance(st, ast.Expr) and isinstance(st.value, ast.Call) and isinstance(st.value.func, ast.Attribute) \
+            and st.value.func.attr in ("append", "add", "extend", "insert") and any(_mentions(a, var) for a in st.value.args):
+        return st.value.func.value
+    if isinstance(st, ast.Assign) and any(isinstance(t, ast.Subscript) for t in st.targets) and _mentions(st.value, var):
+        return st.targets[0]
+    return None
+
+
+def _must_place(stmts, var):
+    """Every path through `stmts` records `var` (or leaves the iteration explicitly)."""
+    for st in stmts:
+        if _placement(st, var) is not None:
+            return True
+        if isinstance(st, (ast.Continue, ast.Return, ast.Raise)):
+            return True
+        if isinstance(st, ast.If) and st.orelse and _must_place(st.body, var) and _must_place(st.orelse, var):
+            return True
+        if isinstance(st, (ast.With, ast.Try)) and _must_place(st.body, var):
+            return True
+    return False
+
+
+def _unplaced_path(stmts, var, trail=()):
+    """A description of one path through stmts on which var is not recorded (for the report)."""
+    for st in stmts:
+        if isinstance(st, ast.If) and not (st.orelse and _must_place(st.body, var) and _must_place(st.orelse, var)):
+            if not _must_place(st.body, var) and any(_placement(x, var) is not None for b in st.body for x in ast.walk(b)
+                                                     if isinstance(x, ast.stmt)):
+                return _unplaced_path(st.body, var, trail + (f"line {st.lineno}: `{ast.unparse(st.test)}` true",))
+            if st.orelse and not _must_place(st.orelse, var):
+                return _unplaced_path(st.orelse, var, trail + (f"line {st.lineno}: `{ast.unparse(st.test)}` false",))
+    return trail
+
+
+def okcover(repo):
+    res = RuleResult("R-OKCOVER")
+    m, f, cls_site = _find_struct_generator(repo)
+    kws = {k.arg: k.value for k in cls_site.keywords}
+    ok_src = kws.get("field_ok_checks")
+    callee = None
+    if isinstance(ok_src, ast.Name):
+        for n in walk_no_nested_funcs(f.node):
+            if isinstance(n, ast.Assign) and any(isinstance(t, ast.Name) and t.id == ok_src.id for t in n.targets) \
+                    and isinstance(n.value, ast.Call) and isinstance(n.value.func, ast.Name):
+                callee = m.funcs.get(n.value.func.id)
+    if callee is None:
+        raise AnalysisError("header_generator: the function producing field_ok_checks was not found")
+    params = [a.arg for a in callee.node.args.args]
+    if not params:
+        raise AnalysisError(f"{callee.name} has no parameters")
+    fields = params[0]
+    loops = [n for n in walk_no_nested_funcs(callee.node) if isinstance(n, ast.For) and isinstance(n.iter, ast.Name)
+             and n.iter.id == fields and isinstance(n.target, ast.Name)]
+    if not loops:
+        raise AnalysisError(f"{callee.name}: no loop over its field list `{fields}`")
+    keys = {}
+    for lp in loops:
+        var = lp.target.id
+        res.instances += 1
+        if not _must_place(lp.body, var):
+            trail = _unplaced_path(lp.body, var)
+            res.add(f"{HG}|{callee.name}|unplaced", f"{callee.name}: on the path [{'; '.join(trail) or 'fall-through'}] the "
+                    f"field `{var}` is put into no group, so the generated Ok() never looks at it: a structure whose such "
+                    "field is not Ok() still reports Ok()", HG, lp.lineno, callee.name)
+        for st in ast.walk(lp):
+            if isinstance(st, ast.stmt):
+                tgt = _placement(st, var)
+                if tgt is not None and isinstance(tgt, ast.Subscript) and isinstance(tgt.slice, ast.Constant) \
+                        and isinstance(tgt.slice.value, str):
+                    keys.setdefault(tgt.slice.value, st.lineno)
+    # every container the fields were put into is turned into text
+    for key, line in sorted(keys.items()):
+        res.instances += 1
+        emitted = False
+        for n in walk_no_nested_funcs(callee.node):
+            if isinstance(n, ast.For) and n not in loops and isinstance(n.iter, ast.Subscript) \
+                    and isinstance(n.iter.slice, ast.Constant) and n.iter.slice.value == key:
+                tnames = [x.id for x in ast.walk(n.target) if isinstance(x, ast.Name)]
+                for c in ast.walk(n):
+                    if isinstance(c, ast.Call) and (call_name(c) or "").endswith("format_template"):
+                        kw = {k.arg: k.value for k in c.keywords}
+                        if "field" in kw and any(_mentions(kw["field"], t) for t in tnames):
+                            emitted = True
+        if not emitted:
+            res.add(f"{HG}|{callee.name}|unemitted|{key}", f"{callee.name}: fields collected under \"{key}\" are never turned "
+                    "into an Ok() test (no loop over that list formats a template with field=...)", HG, line, callee.name)
+    res.detail = {"function": callee.name, "containers": sorted(keys)}
+    res.samples = [f"{callee.name}: every path of `for {loops[0].target.id} in {fields}` records the field; containers {sorted(keys)} are emitted"]
+    res.analysed = [HG]
+    return res
+
+
+# ---------------------------------------------------------------------------------------------------------
+# R-TEXTNAME: the name a value is written under in the text format is the name it is read back under
+_CSTRING = re.compile(r'"(?:[^"\\\n]|\\.)*"')
+
+
+def _text_name_slots(text):
+    """Placeholders that occur inside a C string literal of the template's code (comments removed)."""
+    code = re.sub(r"//[^\n]*", "", text)
+    slots = set()
+    for lit in _CSTRING.findall(code):
+        slots |= set(re.findall(r"\$\{(\w+)\}", lit))
+    return slots
+
+
+def textname(repo):
+    res = RuleResult("R-TEXTNAME")
+    tp = Templates(repo)
+    m = repo.mod(HG)
+    slots = {name: _text_name_slots(t["text"]) for name, t in tp.templates.items()}
+    slots = {k: v for k, v in slots.items() if v}
+    if len(slots) < 3:
+        raise AnalysisError(f"only {len(slots)} templates with a placeholder inside a string literal")
+    groups = {}
+    for n in ast.walk(m.tree):
+        if isinstance(n, ast.Call) and (call_name(n) or "").endswith("format_template") and n.args:
+            f = m.enclosing_func(n)
+            cands = _template_candidates(m, f, n.args[0]) or set()
+            for t in cands:
+                for k in n.keywords:
+                    if k.arg in slots.get(t, ()):
+                        groups.setdefault((f.qualname if f else "", k.arg), []).append((t, k.value, n.lineno))
+    for (fname, slot), sites in sorted(groups.items()):
+        per_template = {}
+        for t, v, line in sites:
+            per_template.setdefault(t, set()).add(ast.unparse(v))
+        if len(per_template) < 2:
+            continue  # one template used several times: nothing to agree with
+        res.instances += 1
+        if len({frozenset(v) for v in per_template.values()}) > 1:
+            desc = "; ".join(f"{t}: {sorted(v)}" for t, v in sorted(per_template.items()))
+            line = min(l for _, _, l in sites)
+            res.add(f"{HG}|{fname}|{slot}", f"{fname} puts different names into the string literals of sibling text-format "
+                    f"templates (slot {slot}): {desc}.  The text written by one is matched by the other, so a value written "
+                    "under one name is not read back (or is read back as something else)", HG, line, fname)
+        elif len(res.samples) < 4:
+            res.samples.append(f"{fname}: {sorted(per_template)} all use {sorted(next(iter(per_template.values())))} for ${{{slot}}}")
+    res.detail = {"templates_with_text_names": sorted(slots)}
+    res.analysed = [HG, TEMPLATES]
+    return res
